@@ -112,6 +112,26 @@ pub fn eval_case(ops: &[Op], drv: Option<&mut Drv>, pool: &Pool, rng: &mut Rng, 
             }
         }
     }
+    // a dispatch in which a system panics (caught) must not change what setup and dispose reach later
+    if rng.chance(30) {
+        let staged: Vec<usize> = built.infos.values().filter(|i| i.placed && !i.is_tl && i.parent.is_none()).map(|i| i.tag).collect();
+        if !staged.is_empty() {
+            let t = *rng.pick(&staged);
+            shared.behav[t].panic_mode.store(1, SeqCst);
+            shared.set_caller();
+            let w = full_world();
+            let r = catch_unwind(AssertUnwindSafe(|| match &mut disp {
+                AnyDisp::D(d) => d.dispatch(&w),
+                AnyDisp::S(d) => d.dispatch(&w),
+                AnyDisp::B(d) => d.run_now(&w),
+            }));
+            shared.behav[t].panic_mode.store(0, SeqCst);
+            shared.take_log();
+            if r.is_ok() && !built.infos[&t].is_batch {
+                out.impl_v.push(("C14".into(), format!("system {} panicked inside run but dispatch returned normally", t)));
+            }
+        }
+    }
     let rounds = 1 + rng.below(3);
     let mut log_all = String::new();
     for round in 0..rounds {
